@@ -49,6 +49,55 @@ def late_signal_loop(rng, m, N, kind):
     return {"nodes": nodes, "bound": {}, "entrypoints": None, "selected": None, "loop": {"family": "L3", "m": m, "N": N, "kind": kind}}
 
 
+def self_first_body_part(ctx):
+    """do { count += 1; stages...; publish } while (count < limit) written with a wait_for-synchronised gate whose target - the first
+    body node - is SELF-accumulating (step(count) -> count), followed by k pass-through stages and the node that emits the
+    end-of-turn signal.  count must end at max(limit, 1) with exactly that many executions of `step`."""
+    import asyncio
+    from hypergraph import END, AsyncRunner, Graph, SyncRunner
+    from hypergraph.nodes import FunctionNode, RouteNode
+    rng = ctx.rng
+    n = 0
+    for k in (0, 1, 2, 3):
+        for limit in (0, 1, 2, 3, 5):
+            for runner in ("sync", "async"):
+                calls = []
+
+                def step(count):
+                    calls.append(count)
+                    return count + 1
+                nodes = [FunctionNode(step, name="step", output_name="count")]
+                prev = "count"
+                for i in range(1, k + 1):
+                    def stage(x):
+                        return x
+                    nodes.append(FunctionNode(stage, name=f"stage_{i}", output_name=f"s{i}").with_inputs(x=prev))
+                    prev = f"s{i}"
+
+                def publish(x):
+                    return x
+                nodes.append(FunctionNode(publish, name="publish", output_name="published", emit="turn_done").with_inputs(x=prev))
+
+                def again(count, limit):
+                    return "step" if count < limit else END
+                nodes.append(RouteNode(again, targets=["step", END], wait_for="turn_done", name="again"))
+                rng.shuffle(nodes)
+                G = Graph(nodes)
+                inputs = {"count": 0, "limit": limit}
+                try:
+                    res = SyncRunner().run(G, inputs, max_iterations=200) if runner == "sync" else asyncio.run(AsyncRunner().run(G, inputs, max_iterations=200))
+                except Exception as e:  # noqa: BLE001
+                    ctx.violation("oracle", f"self-accumulating-first-node loop raised {type(e).__name__}: {e}", case={"family": "self_first_body", "stages": k, "limit": limit})
+                    continue
+                n += 1
+                want = max(limit, 1)
+                if res.values.get("count") != want or len(calls) != want:
+                    ctx.violation("oracle", f"do-while loop with a self-accumulating first body node, {k} pass-through stage(s) and a gate synchronised on the last node's signal, "
+                                  f"limit {limit}: count={res.values.get('count')} after {len(calls)} executions of the body's first node, the sequential loop gives {want} / {want} "
+                                  "(extra executions before the gate's first decision)", case={"family": "self_first_body", "stages": k, "limit": limit, "runner": runner})
+    return n
+
+
 def run(ctx):
     rng = ctx.rng
     cases, meta = [], []
@@ -191,9 +240,10 @@ def run(ctx):
                 nontrivial.add(("accum1", md["m"], md["N"], md["kind"], md["exit"]))
         return msgs
 
+    n_self_first = self_first_body_part(ctx)
     obs_all, res = engine.run_cases(ctx, "C04", cases, extra=extra, imports=["Samples", "LoopCount", "LoopCount1"])
     ctx.coverage.update(
-        evaluations=len(cases), coq_checks=res["n"], distinct_nontrivial=len(nontrivial),
+        evaluations=len(cases) + n_self_first, coq_checks=res["n"], distinct_nontrivial=len(nontrivial),
         rule="loop families L1 (gate reads x) / L2 (gate waits on the last body node's emit): body length 1-4, N in 0..12, gate kinds "
              "route/ifelse, exit via END or exit node, max_iterations in {need-1, need, need+1, 200}; accumulator loops with one and with two "
              "ordered self-producers; L3: a closed-by-default gate waiting on a signal emitted by an auditor of the loop variable (the gate's input "
